@@ -30,29 +30,21 @@ theorem multiSimplify_sat (env : Env) (rd : Reader) (f : Field) (b : Rat) (bts :
     rfl
 
 /-- The union bound behind `MultiTerm.simplify`: for a term predicate `P`, the documents that hold a
-    (non-empty) term satisfying `P` are those that hold one of the lexicon terms satisfying `P`. -/
+    term satisfying `P` are those that hold one of the lexicon terms satisfying `P`. -/
 theorem expansion_any (env : Env) (rd : Reader) (hrd : ReaderOk env rd) (d : Doc) (hd : d ∈ env.index)
-    (hp : d.Plain) (f : Field) (P P' : Text → Bool) (hPP : ∀ x, x ≠ [] → P' x = P x) :
-    (((rd.lexicon f).filter P').any fun t => (d.toks f).contains t)
-      = (d.toks f).any fun x => x != [] && P x := by
+    (f : Field) (P : Text → Bool) :
+    (((rd.lexicon f).filter P).any fun t => (d.toks f).contains t) = (d.toks f).any fun x => P x := by
   rw [Bool.eq_iff_iff]
-  simp only [List.any_eq_true, List.mem_filter, List.contains_eq_mem, decide_eq_true_eq, Bool.and_eq_true,
-    bne_iff_ne, ne_eq]
+  simp only [List.any_eq_true, List.mem_filter, List.contains_eq_mem, decide_eq_true_eq]
   constructor
   · rintro ⟨t, ⟨_, hP⟩, hm⟩
-    have hne := (hp f t hm).1
-    exact ⟨t, hm, hne, by rw [← hPP t hne]; exact hP⟩
-  · rintro ⟨x, hx, hne, hP⟩
-    exact ⟨x, ⟨(hrd d hd f x hx).1, by rw [hPP x hne]; exact hP⟩, hx⟩
+    exact ⟨t, hm, hP⟩
+  · rintro ⟨x, hx, hP⟩
+    exact ⟨x, ⟨(hrd d hd f x hx).1, hP⟩, hx⟩
 
-theorem hasField_plain (d : Doc) (hp : d.Plain) (f : Field) :
-    hasField d f = (d.toks f).any fun x => x != [] && true := by
+theorem hasField_any (d : Doc) (f : Field) : hasField d f = (d.toks f).any fun _ => true := by
   unfold hasField
-  cases h : d.toks f with
-  | nil => rfl
-  | cons x xs =>
-    have := (hp f x (by rw [h]; exact List.mem_cons_self ..)).1
-    simp [this]
+  cases d.toks f <;> simp
 
 theorem parseGlob_star (br : Text → Option ((Nat → Bool) × Nat)) : parseGlob br [starC] = [.star] := by
   rw [parseGlob]
@@ -61,14 +53,13 @@ theorem parseGlob_star (br : Text → Option ((Nat → Bool) × Nat)) : parseGlo
 
 /-- `MultiTerm.simplify` of a multi-term leaf. -/
 theorem leafSimplify_sat (env : Env) (rd : Reader) (hrd : ReaderOk env rd) (d : Doc) (hd : d ∈ env.index)
-    (hp : d.Plain) (q : Q) (f : Field) (b : Rat) (P P' : Text → Bool)
-    (hPP : ∀ x, x ≠ [] → P' x = P x)
-    (hbt : btexts env.multi env.bracket rd q = (rd.lexicon f).filter P')
-    (hsat : sat env q d = (d.toks f).any fun x => x != [] && P x) :
+    (q : Q) (f : Field) (b : Rat) (P : Text → Bool)
+    (hbt : btexts env.multi env.bracket rd q = (rd.lexicon f).filter P)
+    (hsat : sat env q d = (d.toks f).any fun x => P x) :
     sat env (multiSimplify rd f b (btexts env.multi env.bracket rd q)) d = sat env q d := by
   by_cases hf : rd.fields.contains f = true
   · rw [multiSimplify_sat env rd f b _ d hf, hbt, hsat]
-    exact expansion_any env rd hrd d hd hp f P P' hPP
+    exact expansion_any env rd hrd d hd f P
   · -- the field is not in the schema: no document has a term in it
     have hnil : d.toks f = [] := by
       cases h : d.toks f with
@@ -92,53 +83,63 @@ theorem sat_bin_congr (env : Env) (k : BK) (a a' b b' : Q)
     · rintro ⟨x, hx, hs⟩; exact ⟨x, hx, by rw [ha x hx]; exact hs⟩
   cases k <;> simp only [sat, ha d hd, hb d hd, hany]
 
+/-- Hypothesis about the empty term for `simplify` (cf. `EOk`). -/
+def EOkS (env : Env) (rd : Reader) (q : Q) : Prop :=
+  emptyOkS env.multi env.bracket rd q = true ∨ ∀ d ∈ env.index, d.NoEmpty
+def EOkSList (env : Env) (rd : Reader) (qs : List Q) : Prop :=
+  emptyOkSList env.multi env.bracket rd qs = true ∨ ∀ d ∈ env.index, d.NoEmpty
+
 mutual
 theorem simplify_sat_aux (env : Env) (rd : Reader) (hrd : ReaderOk env rd)
-    (hidx : ∀ d ∈ env.index, d.Plain) :
-    ∀ (q : Q), cleanS env.multi env.bracket rd q = true → ∀ d ∈ env.index,
+    (hidx : ∀ d ∈ env.index, d.BelowMax) :
+    ∀ (q : Q), cleanS env.multi env.bracket rd q = true → EOkS env rd q → ∀ d ∈ env.index,
       sat env (simplify env.multi env.bracket rd q) d = sat env q d
-  | .null, _, _, _ => rfl
-  | .every _ _, _, _, _ => rfl
-  | .term _ _ _, _, _, _ => rfl
-  | .pre f t b c, _, d, hd => by
+  | .null, _, _, _, _ => rfl
+  | .every _ _, _, _, _, _ => rfl
+  | .term _ _ _, _, _, _, _ => rfl
+  | .pre f t b c, _, _, d, hd => by
     simp only [simplify]
-    apply leafSimplify_sat env rd hrd d hd (hidx d hd) _ f b (fun x => t.isPrefixOf x)
-      (fun x => t.isPrefixOf x) (fun _ _ => rfl) rfl
+    apply leafSimplify_sat env rd hrd d hd _ f b (fun x => t.isPrefixOf x) rfl
     simp only [sat]
     split
     · rename_i ht
       subst ht
-      rw [hasField_plain d (hidx d hd)]
+      rw [hasField_any d f]
       simp
     · rfl
-  | .wild f t b c, _, d, hd => by
+  | .wild f t b c, _, _, d, hd => by
     simp only [simplify]
-    apply leafSimplify_sat env rd hrd d hd (hidx d hd) _ f b
-      (fun x => gmatch (parseGlob env.bracket t) x) (fun x => gmatch (parseGlob env.bracket t) x)
-      (fun _ _ => rfl) rfl
+    apply leafSimplify_sat env rd hrd d hd _ f b (fun x => gmatch (parseGlob env.bracket t) x) rfl
     simp only [sat]
     split
     · rename_i ht
       subst ht
-      rw [hasField_plain d (hidx d hd), parseGlob_star]
+      rw [hasField_any d f, parseGlob_star]
       simp [gmatch_star]
     · rfl
-  | .multi k f t key b, _, d, hd => by
+  | .multi k f t key b, _, _, d, hd => by
     simp only [simplify]
     split
     · rfl
-    · exact leafSimplify_sat env rd hrd d hd (hidx d hd) _ f b (fun x => env.multi k f t key x)
-        (fun x => env.multi k f t key x) (fun _ _ => rfl) rfl rfl
-  | .range f lo hi lx hx b c, _, d, hd => by
+    · exact leafSimplify_sat env rd hrd d hd _ f b (fun x => env.multi k f t key x) rfl rfl
+  | .range f lo hi lx hx b c, _, _, d, hd => by
     simp only [simplify]
-    apply leafSimplify_sat env rd hrd d hd (hidx d hd) _ f b (fun x => inRange lo hi lx hx x)
-      (fun x => inRange lo hi lx hx x && !(lo == none && lx && x == [])) ?_ rfl rfl
-    intro x hx'
-    have : (x == []) = false := by simpa using hx'
-    simp [this]
-  | .phrase _ _ _ _, _, _, _ => rfl
-  | .comp k qs b, hc, d, hd => by
+    exact leafSimplify_sat env rd hrd d hd _ f b (fun x => inRangeQ lo hi lx hx x) rfl rfl
+  | .phrase _ _ _ _, _, _, _, _ => rfl
+  | .comp k qs b, hc, he, d, hd => by
     simp only [cleanS, Bool.and_eq_true, Bool.or_eq_true] at hc
+    have hel : EOkSList env rd qs := by
+      rcases he with he | he
+      · simp only [emptyOkS, Bool.and_eq_true] at he; exact Or.inl he.1
+      · exact Or.inr he
+    have hen : ¬ qs.isEmpty = true → EOk env (.comp k (simplifyList env.multi env.bracket rd qs) b) := by
+      intro hne
+      rcases he with he' | he'
+      · simp only [emptyOkS, Bool.and_eq_true, Bool.or_eq_true] at he'
+        rcases he'.2 with h0 | h0
+        · exact absurd h0 hne
+        · exact Or.inl h0
+      · exact Or.inr he'
     simp only [simplify]
     split
     · rename_i he
@@ -148,10 +149,10 @@ theorem simplify_sat_aux (env : Env) (rd : Reader) (hrd : ReaderOk env rd)
     · rename_i he
       rcases hc.2 with h | h
       · exact absurd h he
-      · rw [normalize_sat_aux env hidx _ h d hd, sat_comp, sat_comp]
-        have h1 := simplifyList_sat_aux env rd hrd hidx qs hc.1 d hd
+      · rw [normalize_sat_aux env hidx _ h (hen he) d hd, sat_comp, sat_comp]
+        have h1 := simplifyList_sat_aux env rd hrd hidx qs hc.1 hel d hd
         cases k <;> simp only [den, h1.1, h1.2.1, h1.2.2]
-  | .seq c qs s o b, hc, d, hd => by
+  | .seq c qs s o b, hc, _, d, hd => by
     simp only [cleanS, Bool.or_eq_true, Bool.and_eq_true, beq_iff_eq] at hc
     simp only [simplify]
     split
@@ -163,26 +164,35 @@ theorem simplify_sat_aux (env : Env) (rd : Reader) (hrd : ReaderOk env rd)
       rcases hc with h | h
       · exact absurd h he
       · simp only [h.1, normalize, h.2]
-  | .not _ _, _, _, _ => rfl
-  | .bin k a b, hc, d, hd => by
+  | .not _ _, _, _, _, _ => rfl
+  | .bin k a b, hc, he, d, hd => by
     simp only [cleanS, Bool.and_eq_true] at hc
+    have hes : EOkS env rd a ∧ EOkS env rd b
+        ∧ EOk env (.bin k (simplify env.multi env.bracket rd a) (simplify env.multi env.bracket rd b)) := by
+      rcases he with he | he
+      · simp only [emptyOkS, Bool.and_eq_true] at he; exact ⟨Or.inl he.1.1, Or.inl he.1.2, Or.inl he.2⟩
+      · exact ⟨Or.inr he, Or.inr he, Or.inr he⟩
     simp only [simplify]
-    rw [normalize_sat_aux env hidx _ hc.2 d hd]
-    exact sat_bin_congr env k a _ b _ (simplify_sat_aux env rd hrd hidx a hc.1.1)
-      (simplify_sat_aux env rd hrd hidx b hc.1.2) d hd
-  | .const _ _, _, _, _ => rfl
-  | .opq _ _, _, _, _ => rfl
+    rw [normalize_sat_aux env hidx _ hc.2 hes.2.2 d hd]
+    exact sat_bin_congr env k a _ b _ (simplify_sat_aux env rd hrd hidx a hc.1.1 hes.1)
+      (simplify_sat_aux env rd hrd hidx b hc.1.2 hes.2.1) d hd
+  | .const _ _, _, _, _, _ => rfl
+  | .opq _ _, _, _, _, _ => rfl
 theorem simplifyList_sat_aux (env : Env) (rd : Reader) (hrd : ReaderOk env rd)
-    (hidx : ∀ d ∈ env.index, d.Plain) :
-    ∀ (qs : List Q), cleanSList env.multi env.bracket rd qs = true → ∀ d ∈ env.index,
+    (hidx : ∀ d ∈ env.index, d.BelowMax) :
+    ∀ (qs : List Q), cleanSList env.multi env.bracket rd qs = true → EOkSList env rd qs → ∀ d ∈ env.index,
       (simplifyList env.multi env.bracket rd qs).isEmpty = qs.isEmpty
       ∧ satAll env (simplifyList env.multi env.bracket rd qs) d = satAll env qs d
       ∧ satAny env (simplifyList env.multi env.bracket rd qs) d = satAny env qs d
-  | [], _, _, _ => ⟨rfl, rfl, rfl⟩
-  | q :: qs, hc, d, hd => by
+  | [], _, _, _, _ => ⟨rfl, rfl, rfl⟩
+  | q :: qs, hc, he, d, hd => by
     simp only [cleanSList, Bool.and_eq_true] at hc
-    have h1 := simplify_sat_aux env rd hrd hidx q hc.1 d hd
-    have h2 := simplifyList_sat_aux env rd hrd hidx qs hc.2 d hd
+    have heq : EOkS env rd q ∧ EOkSList env rd qs := by
+      rcases he with he | he
+      · simp only [emptyOkSList, Bool.and_eq_true] at he; exact ⟨Or.inl he.1, Or.inl he.2⟩
+      · exact ⟨Or.inr he, Or.inr he⟩
+    have h1 := simplify_sat_aux env rd hrd hidx q hc.1 heq.1 d hd
+    have h2 := simplifyList_sat_aux env rd hrd hidx qs hc.2 heq.2 d hd
     refine ⟨rfl, ?_, ?_⟩
     · simp only [simplifyList, satAll, h1, h2.2.1]
     · simp only [simplifyList, satAny, h1, h2.2.2]
